@@ -23,6 +23,7 @@ import (
 	"context"
 	"errors"
 	"fmt"
+	"math"
 	"os"
 	"runtime"
 	"sort"
@@ -44,6 +45,7 @@ import (
 	"go.opentelemetry.io/collector/consumer/consumererror/xconsumererror"
 	"go.opentelemetry.io/collector/exporter"
 	"go.opentelemetry.io/collector/exporter/exporterhelper"
+	"go.opentelemetry.io/collector/exporter/exporterhelper/internal"
 	"go.opentelemetry.io/collector/exporter/exporterhelper/internal/hosttest"
 	"go.opentelemetry.io/collector/exporter/exporterhelper/internal/request"
 	"go.opentelemetry.io/collector/exporter/exportertest"
@@ -59,6 +61,10 @@ type xpStorage struct {
 	mu    sync.Mutex
 	st    map[string][]byte
 	onUAC func(op string)
+	// fault injection (from just before Shutdown): plain Set writes fail (the queue-size snapshot of an items/bytes-sized persistent
+	// queue); Close of the storage client reports an error (the client is closed nevertheless)
+	failSets  bool
+	failClose bool
 }
 
 type xpClient struct {
@@ -77,6 +83,12 @@ func (c *xpClient) Get(ctx context.Context, k string) ([]byte, error) {
 }
 
 func (c *xpClient) Set(ctx context.Context, k string, v []byte) error {
+	c.ext.mu.Lock()
+	fail := c.ext.failSets
+	c.ext.mu.Unlock()
+	if fail {
+		return errors.New("injected: storage write failed")
+	}
 	return c.Batch(ctx, storage.SetOperation(k, v))
 }
 
@@ -88,6 +100,9 @@ func (c *xpClient) Close(context.Context) error {
 	c.ext.mu.Lock()
 	defer c.ext.mu.Unlock()
 	c.closed = true
+	if c.ext.failClose {
+		return errors.New("injected: storage close failed")
+	}
 	return nil
 }
 
@@ -179,12 +194,12 @@ type xpCfg struct {
 	reqExp     bool // NewProfilesRequestExporter (converter + request consume func) instead of NewProfilesExporter
 	queue      bool
 	persistent bool
-	sizer      string // requests | items
+	sizer      string // requests | items | bytes
 	capacity   int64
 	consumers  int
 	wfr        bool
 	block      bool
-	batch      int // 0 none, 1 sending_queue::batch
+	batch      int // 0 none, 1 sending_queue::batch, 2 legacy WithBatcher (with or without a sending queue)
 	flushTO    time.Duration
 	minSize    int64
 	maxSize    int64
@@ -207,9 +222,24 @@ type xpCall struct {
 }
 
 type xpCase struct {
-	cfg     xpCfg
-	acts    []xpAct
-	backend []xpCall
+	cfg       xpCfg
+	acts      []xpAct
+	backend   []xpCall
+	failSet   bool          // storage starts failing plain Set writes just before Shutdown is called
+	failClose bool          // the storage client's Close fails (from just before Shutdown)
+	shutCtx   int           // context handed to Shutdown: 0 live, 1 cancelled during the drain, 2 deadline, 3 already done on entry
+	shutCtxD  time.Duration // … after this long
+}
+
+// hasQueueSender: the helper builds a QueueBatch (obsQueue included) for a sending queue AND for the legacy batcher alone (then a
+// wait_for_result memory queue of capacity MaxInt, block_on_overflow)
+func (c *xpCfg) hasQueueSender() bool { return c.queue || c.batch == 2 }
+
+func (c *xpCfg) effCapacity() int64 {
+	if !c.queue {
+		return math.MaxInt
+	}
+	return c.capacity
 }
 
 func (c *xpCfg) options(host *component.Host, st *xpStorage) ([]exporterhelper.Option, error) {
@@ -231,6 +261,9 @@ func (c *xpCfg) options(host *component.Host, st *xpStorage) ([]exporterhelper.O
 		if c.sizer == "items" {
 			q.Sizer = request.SizerTypeItems
 		}
+		if c.sizer == "bytes" {
+			q.Sizer = request.SizerTypeBytes
+		}
 		if c.persistent {
 			id := component.MustNewID("xpstore")
 			q.StorageID = &id
@@ -239,7 +272,14 @@ func (c *xpCfg) options(host *component.Host, st *xpStorage) ([]exporterhelper.O
 		if c.batch == 1 {
 			q.Batch = &exporterhelper.BatchConfig{FlushTimeout: c.flushTO, MinSize: c.minSize, MaxSize: c.maxSize}
 		}
-		if err := q.Validate(); err != nil {
+		vq := q
+		if c.persistent {
+			// persistent queues sized by items exist in the code (queue-size snapshots in storage) although Validate restricts
+			// configuration files to the requests sizer, and `batch` wants an items/bytes sizer: validate everything else
+			vq.Sizer = request.SizerTypeRequests
+			vq.Batch = nil
+		}
+		if err := vq.Validate(); err != nil {
 			return nil, err
 		}
 		if q.Batch != nil {
@@ -253,6 +293,20 @@ func (c *xpCfg) options(host *component.Host, st *xpStorage) ([]exporterhelper.O
 		} else {
 			opts = append(opts, exporterhelper.WithQueue(q))
 		}
+	}
+	if c.batch == 2 {
+		b := exporterhelper.NewDefaultBatcherConfig()
+		b.FlushTimeout = c.flushTO
+		b.MinSize = c.minSize
+		b.MaxSize = c.maxSize
+		if err := b.Validate(); err != nil {
+			return nil, err
+		}
+		if c.reqExp && !c.queue {
+			// the request exporter has no sizers of its own; the queue the helper builds for the legacy batcher needs the requests sizer
+			opts = append([]exporterhelper.Option{internal.WithQueueBatchSettings(NewProfilesQueueBatchSettings())}, opts...)
+		}
+		opts = append(opts, exporterhelper.WithBatcher(b))
 	}
 	return opts, nil
 }
@@ -296,30 +350,8 @@ func xpGen(c int) *xpCase {
 		cfg.capacity = 1000
 	}
 	direct := false
-	switch rnd.IntN(8) {
-	case 0: // queue-less
-		direct = true
-		cfg.queue = false
-	case 1: // persistent queue (requests sizer: what Config.Validate admits)
-		cfg.persistent = true
-		if cfg.capacity < 3 {
-			cfg.capacity = 3
-		}
-	case 2, 3: // memory queue, requests- or items-sized
-		if rnd.IntN(2) == 0 {
-			cfg.sizer = "items"
-			cfg.capacity = int64(4 + rnd.IntN(30))
-			if rnd.IntN(3) == 0 {
-				cfg.capacity = 10000
-			}
-		}
-	case 4, 5, 6: // memory queue + sending_queue::batch
-		cfg.batch = 1
-		cfg.sizer = "items"
-		cfg.capacity = int64(8 + rnd.IntN(60))
-		if rnd.IntN(2) == 0 {
-			cfg.capacity = 10000
-		}
+	bytesSized := false
+	batchParams := func() {
 		cfg.flushTO = []time.Duration{30 * time.Millisecond, time.Second}[rnd.IntN(2)]
 		cfg.minSize = int64(rnd.IntN(21))
 		switch rnd.IntN(3) {
@@ -333,8 +365,72 @@ func xpGen(c int) *xpCase {
 		default:
 			cfg.maxSize = cfg.minSize + int64(3+rnd.IntN(10))
 		}
-	case 7: // wait_for_result
+	}
+	switch rnd.IntN(16) {
+	case 0, 1: // queue-less
+		direct = true
+		cfg.queue = false
+	case 2, 3: // persistent queue: requests-sized (what Config.Validate admits) or items-sized (exists in the code: size snapshot
+		// written at shutdown), alone or with either batcher; storage faults at shutdown
+		cfg.persistent = true
+		if cfg.capacity < 3 {
+			cfg.capacity = 3
+		}
+		switch rnd.IntN(4) {
+		case 0:
+		case 1: // sized by items: writes a size snapshot at shutdown
+			cfg.sizer = "items"
+			cfg.capacity = int64(8 + rnd.IntN(60))
+			cs.failSet = rnd.IntN(2) == 0
+		case 2: // + legacy batcher
+			cfg.batch = 2
+			batchParams()
+		case 3: // + sending_queue::batch (items-sized queue)
+			cfg.batch = 1
+			cfg.sizer = "items"
+			cfg.capacity = int64(20 + rnd.IntN(80))
+			if rnd.IntN(2) == 0 {
+				cfg.capacity = 10000
+			}
+			batchParams()
+			cs.failSet = rnd.IntN(2) == 0
+		}
+		cs.failClose = rnd.IntN(3) == 0
+	case 4, 5, 6: // memory queue, requests- or items-sized
+		if rnd.IntN(2) == 0 {
+			cfg.sizer = "items"
+			cfg.capacity = int64(4 + rnd.IntN(30))
+			if rnd.IntN(3) == 0 {
+				cfg.capacity = 10000
+			}
+		}
+	case 7, 8, 9, 10, 11: // memory queue + sending_queue::batch, 1/3 sized in BYTES (queue and batcher: merges and splits by encoded size)
+		cfg.batch = 1
+		cfg.sizer = "items"
+		cfg.capacity = int64(8 + rnd.IntN(60))
+		if rnd.IntN(2) == 0 {
+			cfg.capacity = 10000
+		}
+		batchParams()
+		bytesSized = rnd.IntN(3) == 0
+	case 12, 13: // legacy WithBatcher: with a memory queue, or alone (the helper then builds a wait_for_result queue of its own)
+		cfg.batch = 2
+		batchParams()
+		if rnd.IntN(2) == 0 {
+			cfg.queue = false
+		}
+	default: // wait_for_result
 		cfg.wfr = true
+	}
+	if bytesSized {
+		cfg.sizer = "bytes"
+		// a payload of n samples encodes to about 8 + 12 n bytes (1: 20 B, 8: 90 B, 21: 220 B): sizes scaled so that merges AND splits happen
+		cfg.capacity = []int64{600, 1000000}[rnd.IntN(2)]
+		cfg.minSize = []int64{0, 40, 120}[rnd.IntN(3)]
+		cfg.maxSize = 0
+		if rnd.IntN(2) == 0 {
+			cfg.maxSize = cfg.minSize + int64(40+rnd.IntN(120))
+		}
 	}
 	if cfg.queue && !cfg.wfr && rnd.IntN(5) == 0 {
 		cfg.block = true
@@ -389,6 +485,10 @@ func xpGen(c int) *xpCase {
 			cs.acts[i].at = t
 		}
 		sd = t + time.Duration(1+rnd.IntN(2000))*time.Millisecond + 137*time.Microsecond + time.Nanosecond
+	}
+	if rnd.IntN(2) == 0 {
+		cs.shutCtx = 1 + rnd.IntN(3)
+		cs.shutCtxD = []time.Duration{time.Millisecond, 50 * time.Millisecond, time.Second, 2500 * time.Millisecond}[rnd.IntN(4)]
 	}
 	cs.acts = append(cs.acts, xpAct{at: sd, shutdown: true})
 	for i := 0; i < rnd.IntN(3) && !direct; i++ { // late sends
@@ -466,6 +566,34 @@ func xpCorpus() []*xpCase {
 		// 11: shutdown exactly when the flush timer fires
 		{cfg: xpCfg{reqExp: true, queue: true, sizer: "items", capacity: 10000, consumers: 1, batch: 1, flushTO: 30 * ms, minSize: 20},
 			acts: []xpAct{send(0, 1, 3), sd(30 * ms), send(30*ms, 2, 2)}, backend: []xpCall{{5 * ms, 0}}},
+		// 12: queue and batcher sized in BYTES: payloads merged (min not reached alone), then a split by max_size; ids/counters are items
+		{cfg: xpCfg{queue: true, sizer: "bytes", capacity: 1000000, consumers: 1, batch: 1, flushTO: time.Second, minSize: 120, maxSize: 160},
+			acts: []xpAct{send(0, 1, 5), send(ms, 2, 7), send(2*ms, 3, 21), sd(5 * time.Second)}, backend: []xpCall{{0, 0}, {0, 1}}},
+		// 13: legacy WithBatcher WITHOUT a sending queue (request exporter): partial batch parked when Shutdown is requested; Send waits for the result
+		{cfg: xpCfg{reqExp: true, queue: false, sizer: "requests", capacity: 1, consumers: 1, batch: 2, flushTO: time.Second, minSize: 20},
+			acts: []xpAct{send(0, 1, 3), send(ms, 2, 3), sd(10 * ms)}},
+		// 14: legacy WithBatcher with a memory queue, split by max_size, failing flush
+		{cfg: xpCfg{queue: true, sizer: "requests", capacity: 100, consumers: 1, batch: 2, flushTO: 30 * ms, minSize: 3, maxSize: 3, retry: true, initial: 10 * ms},
+			acts: []xpAct{send(0, 1, 8), send(ms, 2, 2), sd(35 * ms)}, backend: []xpCall{{0, 2}, {0, 0}, tr, tr}},
+		// 15: storage faults AT SHUTDOWN, persistent queue + sending_queue::batch (items-sized): the size snapshot fails, the queue's own
+		// Shutdown returns an error, the batcher must still be shut down (final flush of the parked batch, timer goroutine ended)
+		{cfg: xpCfg{queue: true, persistent: true, sizer: "items", capacity: 1000, consumers: 1, batch: 1, flushTO: time.Second, minSize: 40}, failSet: true,
+			acts: []xpAct{send(0, 1, 3), send(ms, 2, 3), sd(10 * ms)}},
+		// 16: the client's Close fails, persistent queue + legacy batcher, partial batch parked
+		{cfg: xpCfg{queue: true, persistent: true, sizer: "requests", capacity: 100, consumers: 1, batch: 2, flushTO: time.Hour, minSize: 40}, failClose: true,
+			acts: []xpAct{send(0, 1, 3), send(ms, 2, 3), sd(time.Second)}},
+		// 17: items-sized persistent queue whose size snapshot fails at shutdown while a slow export is in flight
+		{cfg: xpCfg{queue: true, persistent: true, sizer: "items", capacity: 100, consumers: 2}, failSet: true,
+			acts: []xpAct{send(0, 1, 2), send(0, 2, 2), send(0, 3, 2), sd(time.Second)}, backend: []xpCall{{3 * time.Second, 0}, {3 * time.Second, 1}, {0, 0}}},
+		// 18-20: the context handed to Shutdown ends during a slow drain with a backlog (deadline / already done / cancelled)
+		{cfg: xpCfg{queue: true, sizer: "requests", capacity: 100, consumers: 1}, shutCtx: 2, shutCtxD: 50 * ms,
+			acts:    []xpAct{send(0, 1, 2), send(0, 2, 2), send(0, 3, 2), send(0, 4, 2), sd(ms)},
+			backend: []xpCall{{3 * time.Second, 0}, {3 * time.Second, 1}, {3 * time.Second, 0}, {100 * ms, 2}}},
+		{cfg: xpCfg{reqExp: true, queue: true, sizer: "requests", capacity: 100, consumers: 2, retry: true, initial: 100 * ms}, shutCtx: 3,
+			acts:    []xpAct{send(0, 1, 2), send(0, 2, 2), send(0, 3, 2), send(0, 4, 2), send(0, 5, 1), sd(ms)},
+			backend: []xpCall{{3 * time.Second, 0}, {3 * time.Second, 1}, {3 * time.Second, 0}, {100 * ms, 2}}},
+		{cfg: xpCfg{queue: true, sizer: "items", capacity: 1000, consumers: 1, batch: 1, flushTO: time.Second, minSize: 40}, shutCtx: 1, shutCtxD: ms,
+			acts: []xpAct{send(0, 1, 3), send(ms, 2, 3), sd(10 * ms)}, backend: []xpCall{{3 * time.Second, 0}}},
 	}
 }
 
@@ -587,8 +715,37 @@ func xpExec(cs *xpCase, set exporter.Settings, probe func(run *xpRun)) *xpRun {
 				if probe != nil {
 					probe(run)
 				}
+				if cs.failSet || cs.failClose {
+					// storage faults AT SHUTDOWN: the queue's own Shutdown returns an error; the rest of the shutdown must still happen
+					st.mu.Lock()
+					st.failSets = cs.failSet
+					st.failClose = cs.failClose
+					st.mu.Unlock()
+				}
+				// the context handed to Shutdown: the property does not make the drain conditional on it
+				sctx := bg
+				switch cs.shutCtx {
+				case 1:
+					c, cancel := context.WithCancel(bg)
+					sctx = c
+					go func() {
+						select {
+						case <-time.After(cs.shutCtxD):
+						case <-shutDone:
+						}
+						cancel()
+					}()
+				case 2:
+					c, cancel := context.WithTimeout(bg, cs.shutCtxD)
+					defer cancel()
+					sctx = c
+				case 3:
+					c, cancel := context.WithCancel(bg)
+					cancel()
+					sctx = c
+				}
 				run.log(xpEv{kind: "shutreq"})
-				e := exp.Shutdown(bg)
+				e := exp.Shutdown(sctx)
 				run.log(xpEv{kind: "shutret", failed: e != nil})
 				close(shutDone)
 				return
@@ -641,11 +798,16 @@ func xpExec(cs *xpCase, set exporter.Settings, probe func(run *xpRun)) *xpRun {
 		}
 		st.mu.Unlock()
 		sort.Ints(run.stored)
+		st.mu.Lock()
+		st.failSets = false
+		st.failClose = false
+		st.mu.Unlock()
 		// the next start: a new exporter on the same storage, always-succeeding backend
 		var rmu sync.Mutex
 		rcfg := cs.cfg
 		rcfg.capacity = 100000
 		rcfg.retry = false
+		rcfg.batch = 0
 		ropts, err := rcfg.options(&host, st)
 		if err == nil {
 			st.onUAC = nil
@@ -939,9 +1101,9 @@ func xpKind(c xpCfg) string {
 func xpEmitOps(out *vOut, idx int, cs *xpCase) {
 	c := cs.cfg
 	out.Linef("case %d", idx)
-	out.Linef("op cfg signal=profiles wrap=0 queue=%d persistent=%d sizer=%s cap=%d consumers=%d wfr=%d block=%d batch=%d flush=%s min=%d max=%d retry=%d initial=%s maxelapsed=%s timeout=%s failset=0 failclose=0 shutctx=0 shutctxd=0 reqexp=%d",
+	out.Linef("op cfg signal=profiles wrap=0 queue=%d persistent=%d sizer=%s cap=%d consumers=%d wfr=%d block=%d batch=%d flush=%s min=%d max=%d retry=%d initial=%s maxelapsed=%s timeout=%s failset=%d failclose=%d shutctx=%d shutctxd=%s reqexp=%d",
 		vB(c.queue), vB(c.persistent), c.sizer, c.capacity, c.consumers, vB(c.wfr), vB(c.block), c.batch, xpD(c.flushTO), c.minSize, c.maxSize,
-		vB(c.retry), xpD(c.initial), xpD(c.maxElapsed), xpD(c.timeout), vB(c.reqExp))
+		vB(c.retry), xpD(c.initial), xpD(c.maxElapsed), xpD(c.timeout), vB(cs.failSet), vB(cs.failClose), cs.shutCtx, xpD(cs.shutCtxD), vB(c.reqExp))
 	for _, a := range cs.acts {
 		if a.shutdown {
 			out.Linef("op act %s shutdown", xpD(a.at))
@@ -1066,6 +1228,16 @@ func xpStats(out *vOut, cs *xpCase, run *xpRun, v xpVerdict) {
 	}
 	if c.queue {
 		out.Linef("stat sizer_%s 1", c.sizer)
+	}
+	if cs.failSet {
+		out.Linef("stat storage_set_fails_at_shutdown 1")
+	}
+	if cs.failClose {
+		out.Linef("stat storage_close_fails_at_shutdown 1")
+	}
+	out.Linef("stat shutdown_ctx_%d 1", cs.shutCtx)
+	if c.sizer == "bytes" {
+		out.Linef("stat bytes_sized_batching 1")
 	}
 	if c.wfr {
 		out.Linef("stat cfg_wait_for_result 1")
@@ -1254,7 +1426,10 @@ func TestVerifC19XProfiles(t *testing.T) {
 				gaugeRead = true
 			})
 			out.Linef("case %d", c)
-			out.Linef("op cfg sig=profiles queue=%d persistent=%d sizer=%s cap=%d wfr=%d batch=%d retry=%d reqexp=%d", vB(cfg.queue), vB(cfg.persistent), cfg.sizer, cfg.capacity, vB(cfg.wfr), cfg.batch, vB(cfg.retry), vB(cfg.reqExp))
+			// queue= / cap=: whether the helper built a QueueBatch (obsQueue and gauges included) and that queue's capacity — the legacy
+			// batcher alone gets a wait_for_result queue of capacity MaxInt
+			hasQ, effCap := cfg.hasQueueSender(), cfg.effCapacity()
+			out.Linef("op cfg sig=profiles queue=%d persistent=%d sizer=%s cap=%d wfr=%d batch=%d retry=%d reqexp=%d sendingqueue=%d failset=%d failclose=%d shutctx=%d", vB(hasQ), vB(cfg.persistent), cfg.sizer, effCap, vB(cfg.wfr), cfg.batch, vB(cfg.retry), vB(cfg.reqExp), vB(cfg.queue), vB(cs.failSet), vB(cs.failClose), cs.shutCtx)
 			if run.buildErr != nil || run.hung {
 				out.Linef("op skip")
 				if run.hung {
@@ -1323,13 +1498,13 @@ func TestVerifC19XProfiles(t *testing.T) {
 				out.Linef("obs gauge cap=%d datatype=%s", gauge.capV, gauge.capDT)
 			}
 			if gaugeRead && gaugeErr == nil {
-				if cfg.queue && (gauge.capN != 1 || gauge.capV != cfg.capacity) {
-					out.Linef("viol sig=C19/xexporter/capacity-gauge-not-configured-capacity points=%d cap=%d configured=%d", gauge.capN, gauge.capV, cfg.capacity)
+				if hasQ && (gauge.capN != 1 || gauge.capV != effCap) {
+					out.Linef("viol sig=C19/xexporter/capacity-gauge-not-configured-capacity points=%d cap=%d configured=%d", gauge.capN, gauge.capV, effCap)
 				}
-				if !cfg.queue && (gauge.capN != 0 || gauge.sizeN != 0) {
+				if !hasQ && (gauge.capN != 0 || gauge.sizeN != 0) {
 					out.Linef("viol sig=C19/xexporter/queue-gauge-without-queue cap_points=%d size_points=%d", gauge.capN, gauge.sizeN)
 				}
-				if cfg.queue && (gauge.capDT != "profiles" || gauge.sizeDT != "profiles") {
+				if hasQ && (gauge.capDT != "profiles" || gauge.sizeDT != "profiles") {
 					out.Linef("viol sig=C19/xexporter/queue-gauge-data-type-not-profiles cap=%s size=%s", vHex(gauge.capDT), vHex(gauge.sizeDT))
 				}
 			}
